@@ -170,4 +170,17 @@ def readArray (c : ReadCfg) (decompress : List Nat → Nat → Option (List Nat)
 def asciiRead (sz : Nat) (toks : List Int) : List Nat :=
   (toks.map (fun v => leBytes sz (v % ((256 ^ sz : Nat) : Int)).toNat)).flatten
 
+/-- `np.fromstring(text, dtype, sep=" ")` observed as the little-endian bytes of the items, for a dtype
+    that does (`usesBo`) or does not depend on the file's `byte_order`: numpy's text parser stores the
+    NATIVE (host = little-endian) bytes of every value whatever byte order the dtype requests, so a dtype
+    of the other byte order reads every item byte-swapped (sampled against numpy by the harness). -/
+def asciiItemsWith (usesBo : Bool) (bo : ByteOrder) (sz : Nat) (toks : List Int) : List Nat :=
+  if usesBo then ((chunks sz (asciiRead sz toks)).map bo.fix).flatten else asciiRead sz toks
+
+/-- `_get_inline_ascii_data_array_values` under the file's `byte_order`: whether the dtype handed to
+    `np.fromstring` depends on the byte order is read off the SOURCE TEXT (`Gen.vtkDtypeByteOrder`,
+    regenerated on every run; an unknown shape counts as "depends") -/
+def asciiItems (bo : ByteOrder) (sz : Nat) (toks : List Int) : List Nat :=
+  asciiItemsWith ((Gen.vtkDtypeByteOrder.lookup "ascii").getD true) bo sz toks
+
 end Fc
